@@ -1860,6 +1860,9 @@ fn run_batch(env: &mut WalletEnv, args: &[&str], files: &[(&str, Vec<u8>)]) -> R
   let started = Instant::now();
   let mut matured = false;
   let mut seen: Vec<Transaction> = Vec::new();
+  // the command may broadcast its reveal while the harness is still mining
+  // the maturation blocks: what those blocks swallowed counts as seen too
+  let mined_mark = env.mined.len();
   let status = loop {
     for tx in env.mempool() {
       if !seen.iter().any(|t| t.compute_txid() == tx.compute_txid()) {
@@ -1886,6 +1889,11 @@ fn run_batch(env: &mut WalletEnv, args: &[&str], files: &[(&str, Vec<u8>)]) -> R
     std::thread::sleep(Duration::from_millis(2));
   };
   for tx in env.mempool() {
+    if !seen.iter().any(|t| t.compute_txid() == tx.compute_txid()) {
+      seen.push(tx);
+    }
+  }
+  for tx in env.mined[mined_mark..].to_vec() {
     if !seen.iter().any(|t| t.compute_txid() == tx.compute_txid()) {
       seen.push(tx);
     }
